@@ -106,3 +106,47 @@ CHECKS["C19"] = {
     "design_ref": "5/C19",
     "assumptions": TRUST,
 }
+
+CHECKS["C01"] = {
+    "tests": [T("TestC01", 120, 2500, ttimeout=3000)],
+    "level": "exploration",
+    "technique": "property-based testing (rapid): generated multi-writer histories delivered to 2-3 observers by different routes/orders/batchings/duplications with harness-chosen fetch completion order; differential oracle between replicas plus (time,id) order, head and LWW-replay models",
+    "rule": "rapid draws a store type, 1-4 authors (replication off, manual merges => chains, forks, merges; up to 16 (quick) / 40 (thorough) steps) and 2-3 observers (replication on, mutually disconnected until the end), each with its own plan of up to 7 deliveries: manual Sync / injected topic message / injected direct-channel payload (each announcing 1-4 arbitrary entries as heads, repeated 0-2 times, awaited or not), restart+Load(-1), snapshot save + fresh instance + LoadFromSnapshot, own local write; optionally every block fetch of the observer is parked and released in a drawn order. Final phase: observers are reconnected (head exchange on connect) and every replica is announced every replica's heads until all hold the union. Oracle: every replica holds the union, Values() == entries sorted by (time,id), heads == model heads, and the view (listing / map / documents) is identical on all replicas and equal to the LWW replay; non-trivial = the history has a fork AND two observers' plans differ; distinct = SHA-1 of the case JSON",
+    "level_text": "Generated histories and delivery plans; no exhaustiveness claimed.",
+    "level_note": "The uniqueness assumption on (time, writer) pairs holds by construction (each identity writes through one live, loaded store). A shortfall in delivery is counted as inconclusive here (C02/C05 decide it).",
+    "design_ref": "5/C01",
+    "assumptions": TRUST,
+}
+
+CHECKS["C04"] = {
+    "tests": [T("TestC04", 300, 4000)],
+    "level": "exploration",
+    "technique": "property-based testing (rapid): enumerated single-field mutations of valid entries (and sibling-database entries) x delivery form x route, with an independent badness oracle (recomputed content address, signature verification, log id) and a canary to prove the route processed the input",
+    "rule": "rapid draws a store type, 1-2 authors with a short honest history, whether the victim already holds it, a base entry (an honest entry or a fresh valid one nobody holds), one of 19 field mutations (payload, clock time/id, next add/drop, refs, key other/garbage, signature flip/empty, five identity fields, log id, v, claimed hash, sibling-database entry), the delivery form (A head with the claimed hash kept, B head with the hash recomputed and the block stored on the attacker's node, C stored block reachable through next from a valid head signed by a colluding authorised writer) and the route (manual Sync, injected topic message, injected direct-channel payload). bad(e) := claimed address != address of the content, or signature does not verify against key and content, or log id != this database - computed with the dependency's encoder and verifier. After an honest canary entry sent by the same route is visible and the replica rests: if bad, neither address is in the log, Values() or heads, no honest address holds foreign content, everything held before is still there, Values() == (time,id) order and the view == LWW replay of the honest entries held. Mutations that leave the entry valid (identity block with the hash recomputed: not covered by the signature) are counted, not asserted (C03's domain). non-trivial = bad and the victim actually fetched blocks for it; distinct = SHA-1 of the case JSON",
+    "level_text": "Generated cases with every field/form combination hit in the quick tier (see labels); no exhaustiveness over histories.",
+    "level_note": "Links to blocks that nobody holds are not generated: an unfetchable link stalls any replicator until the block appears, honest author or not; the properties assume reachable blocks. Trusted: go-ipfs-log encoder and Verify for the badness oracle.",
+    "design_ref": "5/C04",
+    "assumptions": TRUST,
+}
+
+CHECKS["C10"] = {
+    "tests": [T("TestC10", 150, 3000)],
+    "level": "exploration",
+    "technique": "property-based testing (rapid): generated announcements mixing valid heads with rejected ones at drawn positions, drawn fetch-completion order, then honest re-announcements; wedge oracle (system at rest, valid entry still missing)",
+    "rule": "rapid draws a store type, 1-3 authors with an honest history, 1-3 announcements (routes: manual Sync / topic message / direct payload) of 1-4 items each mixing valid heads (any honest entry) with rejected heads of the kinds the code rejects (entry by an identity outside the write list, entry whose signature no longer verifies with the hash recomputed, entry of another database, honest address with foreign content), optionally with every block fetch of the victim parked and released in a drawn order; then the authors' true heads are announced honestly twice and once more after a new write. Oracle: the victim ends up holding every honest entry (reported only if the system is at rest by hook counters and the entry is still missing), no rejected entry is in its log, Values(), heads or view, and order/view match the models. What the mixed announcement itself achieved is not asserted. non-trivial = a rejected head preceded a valid one inside one announcement AND a rejected block was actually fetched; distinct = SHA-1 of the case JSON",
+    "level_text": "Generated fault sequences with harness-owned fetch completion order; no exhaustiveness claimed.",
+    "level_note": "Rejected kinds are the ones the code rejects by design; forged-author entries are C03's subject. Links to blocks nobody holds are not generated.",
+    "design_ref": "5/C10",
+    "assumptions": TRUST,
+}
+
+CHECKS["C03"] = {
+    "tests": [T("TestC03", 300, 4000)],
+    "level": "exploration",
+    "technique": "property-based testing (rapid): generated write lists x hostile author kinds x delivery routes (incl. hidden behind a colluding writer's entry) with a canary proving the route processed the input; invariant: no hostile address in log/Values/heads/view, refused local write changes nothing",
+    "rule": "rapid draws a store type, a write list (explicit subset, wildcard, none => creator only, creator explicit), 1-2 authors with a short honest history, whether the victim already holds it, a hostile kind (honest entry by an identity outside the list; writer's id copied onto the attacker's identity; writer's whole identity block copied with the attacker's key and signature; writer's identity block and key field with the attacker's signature; local write call on the non-writer's own replica), a hostile chain length 1-3, a route (manual Sync, topic message, direct payload, ancestor referenced by a valid entry signed by a colluding authorised writer) and 0-2 honest writes afterwards. An entry counts as the attacker's when it carries/is signed with the attacker's key. After an honest canary sent by the same route is visible and the replica rests: no hostile address is in the victim's log, Values(), heads or view and order/view match the models; with the wildcard list only the unverifiable kind is asserted. Local write: every write call returns an error and log length, heads, view, cached _localHeads, write events, published messages and the other replica are unchanged. The two forged-author kinds are a recorded OPEN finding: when listed in known_findings.txt they are excluded by construction (counted) and two witness replays must still classify as known. non-trivial = the victim fetched blocks for the hostile input (or the refused write hit a non-empty store); distinct = SHA-1 of the case JSON",
+    "level_text": "Generated cases; no exhaustiveness claimed.",
+    "level_note": "Access controller type ipfs (the default); the simple controller is only reachable through options that bypass the manifest and is not generated. Trusted: the dependency's signature verification.",
+    "design_ref": "5/C03",
+    "assumptions": TRUST,
+}
